@@ -131,6 +131,7 @@ func main() {
 		concretes  = flag.String("concretes", "", "translator validation: run the harness concretely on each input vector of this JSON file ({\"vectors\":[{name:{t,v}}...]}) and write the list of outcomes")
 		cross      = flag.String("cross", "", "second solver (z3|z3new|cvc5): re-discharge solver-decided obligations one-shot")
 		crossMax   = flag.Int("crossmax", 300, "at most this many cross-checked obligations")
+		crossTO    = flag.Int("crosstimeout", 30000, "time limit of one cross-check (ms); a timeout counts as second-solver-unknown")
 		params     multiFlag
 		stubs      multiFlag
 	)
@@ -182,7 +183,7 @@ func main() {
 	}
 	cfg := Config{MaxSteps: *maxSteps, MaxDepth: *maxDepth, Trace: *trace, MapOrder: *mapOrder, Solver: *solver,
 		TimeoutMs: *timeoutMs, Workers: *workers, MaxPaths: *maxPaths, MaxViol: *maxViol, ResetEvery: *resetEvery,
-		Params: map[string]int64{}, Known: map[string]bool{}, CrossSolver: *cross, CrossMax: *crossMax}
+		Params: map[string]int64{}, Known: map[string]bool{}, CrossSolver: *cross, CrossMax: *crossMax, CrossTimeoutMs: *crossTO}
 	for _, kv := range params {
 		i := strings.IndexByte(kv, '=')
 		if i < 0 {
